@@ -324,6 +324,61 @@ pub fn cells() -> Vec<Cell>
 		}
 		}
 	}
+	// deep access paths: the written location lies several steps behind the parameter (members of
+	// members, elements of array members) and the argument is a part of a caller's aggregate
+	// (kind of parameter, parameter type, write, [(argument, what the rules say, written location)])
+	// rule: 0 = legal and writes the location, 1 = missing `&` (E513), 2 = the callee writes through a view or a value (E530)
+	let deep: [(&str, &str, &str, &[(&str, u8, usize)]); 12] = [
+		("pointer to a structure with aggregates", "&T", "p.arr[1] = 55;", &[("&t", 0, 10), ("t", 1, 10)]),
+		("pointer to a structure with aggregates", "&T", "p.inner.b = 55;", &[("&t", 0, 13), ("t", 1, 13)]),
+		("pointer to a structure with aggregates", "&T", "p.a = 55;", &[("&t", 0, 8), ("t", 1, 8)]),
+		("view of a structure with aggregates", "T", "p.arr[1] = 55;", &[("t", 2, 10)]),
+		("view of a structure with aggregates", "T", "p.inner.b = 55;", &[("t", 2, 13)]),
+		("pointer to a sized array", "&[3]i32", "p[2] = 55;", &[("&t.arr", 0, 11), ("&arr", 0, 3), ("t.arr", 1, 11), ("arr", 1, 3)]),
+		("slice pointer", "&[]i32", "p[2] = 55;", &[("&t.arr", 0, 11), ("t.arr", 1, 11)]),
+		("view of array", "[]i32", "p[2] = 55;", &[("t.arr", 2, 11)]),
+		("pointer to struct", "&S", "p.b = 55;", &[("&t.inner", 0, 13), ("t.inner", 1, 13)]),
+		("view of struct", "S", "p.b = 55;", &[("t.inner", 2, 13)]),
+		("pointer", "&i32", "p = 55;", &[("&t.inner.b", 0, 13), ("&t.a", 0, 8), ("&s.b", 0, 5), ("t.inner.b", 1, 13)]),
+		("pointer to a word", "&W", "p.b = 55;", &[("&w", 0, 7), ("w", 1, 7)]),
+	];
+	for (kname, ptype, write, args) in deep
+	{
+		for action in ["write", "write in a nested block", "write in an else branch", "write in a block that loops", "write after a label"]
+		{
+			let body = match action
+			{
+				"write" => format!("\t{write}\n"),
+				"write in a nested block" => format!("\t{{\n\t\t{{\n\t\t\t{write}\n\t\t}}\n\t}}\n"),
+				"write in an else branch" => format!("\tif 1i32 == 2i32\n\t{{\n\t}}\n\telse\n\t{{\n\t\t{write}\n\t}}\n"),
+				"write in a block that loops" => format!("\tvar i: i32 = 0;\n\t{{\n\t\tif i == 1i32\n\t\t\tgoto done;\n\t\ti = i + 1;\n\t\t{write}\n\t\tloop;\n\t}}\n\tdone:\n"),
+				_ => format!("\tgoto next;\n\tnext:\n\t{write}\n"),
+			};
+			for (arg, rule, target) in args
+			{
+				let text = format!("{PRELUDE}fn callee(p: {ptype})\n{{\n{body}}}\nfn main() -> u8\n{{\n{STATE_DECL}{PRINT_STATE}\tcallee({arg});\n{PRINT_STATE}\treturn: 0\n}}\n");
+				let (expect, after) = match rule
+				{
+					0 =>
+					{
+						let mut st = INITIAL;
+						st[*target] = 55;
+						(Some(vec![]), Some(st))
+					}
+					1 => (Some(vec![513, 512]), None),
+					_ => (Some(vec![530]), None),
+				};
+				out.push(Cell {
+					what: format!("callee(p: {ptype}): {write} ({action}); caller passes {arg}"),
+					class: format!("deep path:{kname}:{}", if arg.starts_with('&') { "with &" } else { "without &" }),
+					text,
+					expect,
+					after,
+					has_ampersand: arg.starts_with('&'),
+				});
+			}
+		}
+	}
 	// the first call level again with the call standing in every expression context
 	for (k, (kname, ptype, _read, write, is_pointer)) in KINDS.iter().enumerate()
 	{
@@ -372,8 +427,17 @@ pub fn cells() -> Vec<Cell>
 			}
 		}
 	}
+	// history: every cell again behind an unrelated function that writes through a pointer parameter,
+	// reads a view and compares with literals (what the analyzer learned there must not carry over)
+	let with_history: Vec<Cell> = out
+		.iter()
+		.map(|c| Cell { what: format!("{} [behind a function that writes through its pointer parameter]", c.what), class: format!("{}:behind a writing function", c.class), text: c.text.replacen(PRELUDE, &format!("{PRELUDE}{EARLIER}"), 1), expect: c.expect.clone(), after: c.after, has_ampersand: c.has_ampersand })
+		.collect();
+	out.extend(with_history);
 	out
 }
+
+const EARLIER: &str = "fn earlier(e: &i32, v: []i32, z: &S) -> i32\n{\n\te = 3;\n\tif v[0] == 1\n\t{\n\t\te = 4;\n\t\tz.a = 5;\n\t}\n\telse if 2i32 == v[1]\n\t{\n\t\tz.b = e;\n\t}\n\treturn: v[0]\n}\n";
 
 /// Expression contexts in which a call (returning i32) can stand.
 const CALL_CONTEXTS: [(&str, &str); 6] = [
